@@ -379,6 +379,12 @@ func (g *commonGen) fill(w *World, kind string, b int) Step {
 		st.Sec = g.secretFor(w, kind, st.A, b)
 		st.RM = c.hasModule("remember") && g.r.Chance(1, 3)
 		g.redir(&st)
+		if st.RM && c.JSON && g.r.Chance(1, 4) {
+			if st.Str == nil {
+				st.Str = map[string]string{}
+			}
+			st.Str["rm_bool"] = "1"
+		}
 	case "login_get":
 		g.redir(&st)
 	case "otp_add", "otp_clear", "recovery_regen", "totp_setup", "totp_setup_get", "sms_setup_get":
